@@ -502,8 +502,8 @@ def configs(prop, thorough):
     cs = [conf(tag="split-d2", MaxOps=2, **base)]
     if thorough:
         cs = [conf(tag="split-d3", MaxOps=3, invariants=BASE["invariants"] + " NoWrapBlack", **base),
-              conf(tag="split-A100-dapp", MaxOps=3, A=100, B=0, DappFee=50, HasDapp=True, **base),
-              conf(tag="split-A0-num8", MaxOps=3, A=0, B=100, SplitNum=8, Penalty=100, **base)]
+              conf(tag="split-A100-dapp", MaxOps=2, A=100, B=0, DappFee=50, HasDapp=True, **base),
+              conf(tag="split-A0-num8", MaxOps=2, A=0, B=100, SplitNum=8, Penalty=100, **base)]
     return cs
 
 
@@ -553,8 +553,22 @@ def run_check(ctx, prop):
     per_cfg = []
     acts_seen = set()
     oracle_counts = {}
-    for c in configs(prop, ctx.thorough):
-        mc = model_check(ctx, c)
+    # edge export needs single-worker TLC runs: the configurations are model-checked concurrently (one TLC each),
+    # the replays on the real contract follow one after the other
+    import concurrent.futures
+    import threading
+    cfgs = configs(prop, ctx.thorough)
+    lock = threading.Lock()
+    stage = ctx.stage_specs
+
+    def locked_stage(files=None):
+        with lock:
+            return stage(files)
+    ctx.stage_specs = locked_stage  # ctx.stage_specs hands out numbered directories and is not thread-safe by itself
+    with concurrent.futures.ThreadPoolExecutor(max_workers=max(1, min(len(cfgs), vf.NCPU // 2))) as ex:
+        mcs = list(ex.map(lambda c: model_check(ctx, c), cfgs))
+    ctx.stage_specs = stage
+    for c, mc in zip(cfgs, mcs):
         if not mc:
             continue
         r, edges, inits = mc
@@ -583,7 +597,7 @@ def run_check(ctx, prop):
         ctx.infra("vacuous model run: actions never taken successfully: %s" % missing)
     # code -> spec: seeded random histories on the real contract, validated by TLC
     ct = conf(tag="trace", Cand=["p1", "p2"])
-    nt, nst = (24, 150) if ctx.thorough else (5, 70)
+    nt, nst = (16, 120) if ctx.thorough else (5, 70)
     prefix = [full(a) for a in C10_PREFIX] if prop == "C10" else []
     if binary:
         traces = trace_run(ctx, binary, ct, nt, nst, "tv", prefix=prefix)
